@@ -155,6 +155,28 @@ def closure_of(fx, fn, operand, depth=0):
     return None
 
 
+def fnitem_of(fx, fn, operand, depth=0):
+    """The function item a generic callable operand denotes (`target_base(.., paths::is_dir)`), by provenance."""
+    import cfg as _cfg
+    if depth > 12:
+        return None
+    c = operand.get("c")
+    if c is not None:
+        return c.get("fn")
+    pl = operand.get("mv") or operand.get("cp")
+    if pl is None or [e for e in pl.get("p", []) if e != "deref"]:
+        return None
+    ds = _cfg.whole_defs(fn, pl["l"])
+    if len(ds) != 1 or ds[0].is_term:
+        return None
+    rv = ds[0].node["rv"]
+    if rv["k"] in ("use", "cast"):
+        return fnitem_of(fx, fn, rv["op"], depth + 1)
+    if rv["k"] == "ref":
+        return fnitem_of(fx, fn, {"cp": rv["pl"]}, depth + 1)
+    return None
+
+
 FN_CALLS = ("core::ops::function::Fn::call", "core::ops::function::FnMut::call_mut", "core::ops::function::FnOnce::call_once")
 
 
@@ -175,6 +197,24 @@ def resolve_closures(fx, fn):
                 nf.update(path=c, kind="item", local=True, fnvals=[c])
                 t["fn"] = nf
                 changed = True
+                continue
+            fi = fnitem_of(fx, fn, t["args"][0])
+            if fi is not None and fi.get("path") and len(t["args"]) == 2:
+                # a function item passed as the callable: the call is a plain call of that function with the
+                # tuple's elements as arguments
+                tup = t["args"][1].get("mv") or t["args"][1].get("cp")
+                fields = None
+                if tup is not None and not tup.get("p"):
+                    for s_ in reversed(b["stmts"]):
+                        if s_["lhs"]["l"] == tup["l"] and not s_["lhs"].get("p") and s_["rv"]["k"] == "agg" and s_["rv"].get("ak") == "tuple":
+                            fields = s_["rv"]["fields"]
+                            break
+                if fields is not None:
+                    t["fn"] = {"orig": fi.get("orig", fi["path"]), "path": fi["path"], "kind": "item",
+                               "local": fi["path"] in fx.fns, "krate": fi.get("krate"), "resolved_from": f.get("orig")}
+                    t["args"] = list(fields)
+                    t["arg_tys"] = []
+                    changed = changed or fi["path"] in fx.fns
             continue
         # closures passed on through a generic parameter: make them visible as function values of this call
         fv = list(f.get("fnvals") or [])
